@@ -563,17 +563,17 @@ def parse_ins(ln):
             ity = p.parse_type(); idx.append(parse_value(p, ity))
         ins = Ins('gep', bty=bty, pty=pty, base=base, idx=idx)
     elif op == 'load':
-        p.accept('atomic'); p.accept('volatile')
+        is_atomic = bool(p.accept('atomic')); p.accept('volatile')
         t = p.parse_type(); p.expect(',')
         pt = p.parse_type(); a = parse_value(p, pt)
-        ins = Ins('load', ty=t, pty=pt, a=a)
+        ins = Ins('load', ty=t, pty=pt, a=a, atomic=is_atomic)
         # skip rest
         p.i = len(p.t)
     elif op == 'store':
-        p.accept('atomic'); p.accept('volatile')
+        is_atomic = bool(p.accept('atomic')); p.accept('volatile')
         t = p.parse_type(); v = parse_value(p, t); p.expect(',')
         pt = p.parse_type(); a = parse_value(p, pt)
-        ins = Ins('store', ty=t, v=v, pty=pt, a=a)
+        ins = Ins('store', ty=t, v=v, pty=pt, a=a, atomic=is_atomic)
         p.i = len(p.t)
     elif op == 'alloca':
         p.accept('inalloca')
